@@ -678,7 +678,7 @@ def assigned(x, acc=None, declared=None, push=False):
             r = lvalue_root(x[1])
             if r: acc.add(r)
             assigned(x[3], acc, declared)
-        elif x[0] == "mcall" and x[2] == "copy_from_slice":
+        elif x[0] == "mcall" and x[2] in ("copy_from_slice", "fill"):      # (`fill`: phase 4k)
             r = lvalue_root(x[1])
             if r: acc.add(r)
             assigned(x[3], acc, declared)
@@ -1289,6 +1289,11 @@ class FnLower:
             return ("v", Val(f"(Int.natAbs {a.atom})", "u64", a.deps))
         if recv[0] == "path" and len(recv[1]) == 1 and recv[1][0] in env and env[recv[1][0]].kind in ("list", "modlist", "moplist"):
             if m == "len" and not args: return ("v", Val(f"{env[recv[1][0]].lean}.length", "usize", [env[recv[1][0]].lean]))
+            if m == "is_empty" and not args: return ("v", Val(f"({env[recv[1][0]].lean}.length = 0)", "bool", [env[recv[1][0]].lean]))      # phase 4k
+            if m == "fill" and len(args) == 1 and env[recv[1][0]].kind == "list" and getattr(env[recv[1][0]], "mut", False):              # phase 4k: `x.fill(w)`
+                a = self.word(self.ex(args[0], env, ops), "fill value")
+                ops.append(("let", env[recv[1][0]].lean, f"List.replicate {env[recv[1][0]].lean}.length {a.atom}"))
+                return ("v", Val("()", "unit"))
             self.fail(f"slice method {m}()")
         if m in ("wrapping_add", "wrapping_sub", "wrapping_mul") and len(args) == 1:
             a, b = self.seq([lambda: self.ex(recv, env, ops), lambda: self.ex(args[0], env, ops)], ops)
@@ -1532,6 +1537,7 @@ class FnLower:
     def arr_arg(self, a, env, width, what, mut):
         a = strip_paren(a)
         if a[0] == "ref": a = strip_paren(a[2])
+        if a[0] == "mcall" and a[2] in ("as_mut_slice", "as_slice") and not a[3]: a = strip_paren(a[1])      # phase 4k: `arr.as_mut_slice()` = `&mut arr`
         if a[0] == "path" and len(a[1]) == 1:
             v = self.lookup(env, a[1][0])
             if v.kind in ("arr", "outarr"):
